@@ -31,7 +31,11 @@ namespace vh::pk {
         P.set(key("policy"), r.pick(pols));
         // F10 adverse tuning knobs: default in half of the runs
         bool adverse = r.chance(50, 100);
-        P.set(key("max_thread_count"), adverse && r.chance(1, 2) ? r.range(1, 16) : 1000);
+        // max_thread_count bounds the number of concurrently existing tasks per queue: keep it above
+        // the number of tasks a workload lets block on each other (else the configuration itself
+        // deadlocks the program), but small enough that staged tasks are converted in several steps
+        int64_t min_tc = P.get("rt.min_thread_count", 16);
+        P.set(key("max_thread_count"), adverse && r.chance(1, 2) ? r.range(min_tc, min_tc + 16) : 1000);
         P.set(key("min_add_new_count"), adverse ? r.range(1, 10) : 10);
         P.set(key("max_add_new_count"), adverse ? r.range(1, 10) : 10);
         P.set(key("min_delete_count"), adverse ? r.range(1, 10) : 10);
@@ -109,6 +113,7 @@ namespace vh::pk {
             pika::start(std::function<int()>(entry), (int) args.size(), argv.data(), ip);
         else
             pika::start(nullptr, (int) args.size(), argv.data(), ip);
+        install_crash_handlers();    // pika may have installed its own
     }
 
     int stop()
